@@ -1071,3 +1071,75 @@ Proof.
       by (rewrite shape_of_at_node, Hac; reflexivity).
     rewrite (peraxis_node_d na _ Hna). rewrite Hjs, Hidx. reflexivity.
 Qed.
+
+(* ------------------------------------------------------------------ *)
+(* zero extension in d dimensions: a linear axis evaluated outside the hull multiplies the
+   interpolant of the edge slice by the one-cell decay factor                *)
+Lemma peraxis_low_d (c : list R) x (r : list axis) (G : list nat -> R) :
+  Asc c -> (2 <= length c)%nat -> x < nth 0 c 0 ->
+  let axes := (SLinear, c, x) :: r in
+  peraxis_point (map a_s axes) (map a_c axes) (wrapped (shape_of axes) G) (map a_x axes) =
+  (1 - (nth 0 c 0 - x) / (nth 1 c 0 - nth 0 c 0)) *
+  peraxis_point (map a_s r) (map a_c r) (wrapped (shape_of r) (fun js => G (O :: js))) (map a_x r).
+Proof.
+  intros Ha Hn Hx axes. unfold axes. rewrite !peraxis_tensor. cbn [tensor_eval].
+  unfold axd_of, a_s, a_c, a_x. cbn [fst snd].
+  apply (blend_linear_low c x (fun j => tensor_eval r (fun js => G (j :: js))) Ha Hn Hx).
+Qed.
+
+Lemma peraxis_high_d (c : list R) x (r : list axis) (G : list nat -> R) :
+  Asc c -> (2 <= length c)%nat -> nth (length c - 1) c 0 < x ->
+  let axes := (SLinear, c, x) :: r in
+  peraxis_point (map a_s axes) (map a_c axes) (wrapped (shape_of axes) G) (map a_x axes) =
+  (1 - (x - nth (length c - 1) c 0) / (nth (length c - 1) c 0 - nth (length c - 2) c 0)) *
+  peraxis_point (map a_s r) (map a_c r) (wrapped (shape_of r) (fun js => G ((length c - 1)%nat :: js))) (map a_x r).
+Proof.
+  intros Ha Hn Hx axes. unfold axes. rewrite !peraxis_tensor. cbn [tensor_eval].
+  unfold axd_of, a_s, a_c, a_x. cbn [fst snd].
+  apply (blend_linear_high c x (fun j => tensor_eval r (fun js => G (j :: js))) Ha Hn Hx).
+Qed.
+
+(* ------------------------------------------------------------------ *)
+(* np.searchsorted is a binary search; on ascending vectors it returns the prefix count
+   used by the model ([ssleft])                                            *)
+Fixpoint bsearch (fuel : nat) (c : list R) (x : R) (lo hi : nat) : nat :=
+  match fuel with
+  | O => lo
+  | S f =>
+      if (lo <? hi)%nat then
+        let mid := (lo + (hi - lo) / 2)%nat in
+        if Rltb (nth mid c 0) x then bsearch f c x (S mid) hi else bsearch f c x lo mid
+      else lo
+  end.
+
+Lemma bsearch_ssleft_gen (c : list R) x : Asc c ->
+  forall fuel lo hi, (hi - lo <= fuel)%nat -> (lo <= hi)%nat -> (hi <= length c)%nat ->
+  (forall j, (j < lo)%nat -> nth j c 0 < x) ->
+  (forall j, (hi <= j)%nat -> (j < length c)%nat -> x <= nth j c 0) ->
+  bsearch fuel c x lo hi = ssleft c x.
+Proof.
+  intros Ha. induction fuel as [|f IH]; intros lo hi Hf Hle Hhi Hbelow Habove.
+  - cbn. assert (lo = hi) by lia. subst hi. symmetry.
+    apply ssleft_unique; [exact Ha | lia | exact Hbelow | intros Hl; apply Habove; lia].
+  - cbn [bsearch]. destruct (Nat.ltb_spec lo hi) as [Hlt|Hge].
+    + set (mid := (lo + (hi - lo) / 2)%nat).
+      assert (Hmid : (lo <= mid < hi)%nat).
+      { unfold mid. pose proof (Nat.div_lt_upper_bound (hi - lo) 2 (hi - lo) ltac:(lia) ltac:(lia)). lia. }
+      destruct (Rltb_spec (nth mid c 0) x) as [Hm|Hm].
+      * apply IH; try lia.
+        -- intros j Hj. destruct (Nat.eq_dec j mid) as [->|Hne]; [exact Hm|].
+           destruct (le_lt_dec lo j) as [Hlj|Hlj]; [|apply Hbelow; exact Hlj].
+           pose proof (Ha j mid ltac:(lia) ltac:(lia)). lra.
+        -- exact Habove.
+      * apply IH; try lia.
+        -- exact Hbelow.
+        -- intros j Hj Hjn. destruct (le_lt_dec hi j) as [Hhj|Hhj]; [apply Habove; assumption|].
+           pose proof (Asc_le c mid j Ha Hj Hjn). lra.
+    + assert (lo = hi) by lia. subst hi. symmetry.
+      apply ssleft_unique; [exact Ha | lia | exact Hbelow | intros Hl; apply Habove; lia].
+Qed.
+
+Lemma bsearch_ssleft (c : list R) x : Asc c -> bsearch (length c) c x 0 (length c) = ssleft c x.
+Proof.
+  intros Ha. apply bsearch_ssleft_gen; try lia; try exact Ha; intros; lia.
+Qed.
